@@ -157,8 +157,24 @@ impl TryFrom<&Value> for f64 {
                 Ok(f64::try_from(&Value::Text(s))?)
             }
             Value::Number(v) => Ok(*v),
-            Value::Text(v) => Ok(v.parse::<f64>().unwrap_or(f64::NAN)),
+            Value::Text(v) => Ok(string_to_number(v)),
         }
+    }
+}
+
+/// Optional white space, an optional minus sign, a Number, optional white space; anything
+/// else is NaN (no exponent, no plus sign, no "inf").
+fn string_to_number(value: &str) -> f64 {
+    let v = value.trim_matches(|c| matches!(c, ' ' | '\t' | '\r' | '\n'));
+    let digits = v.strip_prefix('-').unwrap_or(v);
+    let (int, frac) = digits.split_once('.').unwrap_or((digits, ""));
+    let number = (!int.is_empty() || !frac.is_empty())
+        && int.chars().all(|c| c.is_ascii_digit())
+        && frac.chars().all(|c| c.is_ascii_digit());
+    if number {
+        v.parse::<f64>().unwrap_or(f64::NAN)
+    } else {
+        f64::NAN
     }
 }
 
@@ -273,7 +289,7 @@ impl ops::Neg for Value {
 
     fn neg(self) -> Self::Output {
         let a = f64::try_from(&self).unwrap();
-        Value::Number(0f64 - a)
+        Value::Number(-a)
     }
 }
 
